@@ -435,7 +435,9 @@ def gen_tickprobe(rng):
         if g < 0.25:
             off = 0.0
         else:
-            j = rng.choice([1, 1, 2, 3, 5, 8, 12, 16])
+            # from half a tick down to 2^-48 of a tick off the grid (the level shrinks so that the sum stays exact)
+            j = rng.choice([1, 1, 2, 3, 5, 8, 12, 16, 24, 32, 40, 48])
+            k = min(k, 2 ** max(1, 50 - j) - 1)
             off = tick * (2.0 ** -j) * rng.choice([1, -1]) * (rng.choice([1, 3]) if j >= 2 else 1)
         price = k * tick + off
         assert Fraction(price) == Fraction(k) * Fraction(tick) + Fraction(off)
